@@ -76,7 +76,7 @@ def run(tier, seed):
 
     def one(ch):
         inp = "\n".join(json.dumps(x, separators=(",", ":")) for x in [head] + [{k: s[k] for k in ("id", "test", "keys", "ops")} for s in ch]) + "\n"
-        p = subprocess.run([vdrive, "c16"], input=inp.encode(), capture_output=True, timeout=900)
+        p = subprocess.run([vdrive, "c16"], input=inp.encode(), capture_output=True, cwd=common.scratch(), timeout=900)
         if p.returncode != 0:
             raise common.Infra(f"vdrive c16 exited {p.returncode}: {p.stderr.decode(errors='replace')[-2000:]}")
         events = [json.loads(l) for l in p.stdout.decode().splitlines() if l.strip()]
